@@ -1693,6 +1693,17 @@ def run(tier):
     chk.guard(rule_r5, chk, prog)
     chk.guard(rule_r8, chk, prog)
     chk.guard(rule_r10, chk, prog)
+    # what "x in node" means decides which nodes the filters accept: a deep
+    # search lets a mutator propose the node it was given (shared with C12.R7)
+    from . import c12 as _c12
+    sub12 = Check('C12', 'other', tier, [], [])
+    sub12.rule('C12.R7', 'membership in a node is membership among its '
+               'children')
+    chk.guard(_c12.rule_r7_contains, sub12, prog)
+    chk.adopt('C03.R11', '"x in node" is membership among the children of '
+              'the node: the filters that test for a direct child do not '
+              'accept a node whose replacement is the node itself (shared '
+              'with C12.R7, membership part)', sub12)
     from . import c16
     sub16 = Check('C16', 'other', tier, [], [])
     chk.guard(c16.rule_r8, sub16, prog)
